@@ -204,7 +204,7 @@ def ocaml_step():
     if os.path.exists(DRV) and os.path.exists(stamp) and open(stamp).read() == hsh:
         return True, 'cached'
     ensure_makefile()
-    rc, out = sh('timeout 2400 make -j%d Extract/Extraction.vo' % NCPU, cwd=COQ, timeout=2500)
+    rc, out = sh('timeout 2400 make -j%d' % NCPU, cwd=COQ, timeout=2500)
     if rc != 0:
         return False, out[-3000:]
     rc, out = sh('./build.sh', cwd=OCAML, timeout=1200)
